@@ -24,8 +24,11 @@ AddrsOf(os) == {oaddr'[o] : o \in os}
 OpenAfter == {[id |-> c.id, a |-> oaddr'[c.o], st |-> c.st] : c \in econns'}
 Members2 == [a \in Addrs |-> IF all'[a] = NoObj THEN "none" ELSE otype'[all'[a]]]
 
+\* counts the processor should hold per object (model) and real relays per address after the step
+RealPerAddr == [a \in Addrs |-> Cardinality({c \in econns' : oaddr'[c.o] = a})]
 EStep(rec) == hist' = Append(hist, rec @@ [obs |-> Obs', open |-> OpenAfter, members |-> Members2,
-                                            up |-> up', snapAddrs |-> AddrsOf(snap'), idx |-> idx'])
+                                            up |-> up', snapAddrs |-> AddrsOf(snap'), idx |-> idx',
+                                            cnt |-> cnt', realPerAddr |-> RealPerAddr, refusingAll |-> ref'])
 
 \* objects of the round for which a MarkHost* call went through its CAS although they are no
 \* longer the stored object of their address
@@ -37,10 +40,12 @@ KindEnabled(k) ==
     [] k = "round"  -> snap # {} /\ nround < MaxRounds
     [] k = "toggle" -> ntog < MaxToggles
     [] k = "half"   -> nhalf < MaxHalf /\ \E c \in econns : c.st = "open"
+    [] k = "refuse" -> nref < MaxRefuse
+    [] k = "close"  -> nclose < MaxClose /\ econns # {}
 
 ChooseKind ==
   /\ ~finished /\ kind = "" /\ Len(hist) < TargetLen
-  /\ \E k \in {"op", "conn", "round", "toggle", "half"} : KindEnabled(k) /\ kind' = k
+  /\ \E k \in {"op", "conn", "round", "toggle", "half", "refuse", "close"} : KindEnabled(k) /\ kind' = k
   /\ UNCHANGED <<vars, evars, hist, finished>>
 
 EGenNext ==
@@ -67,9 +72,15 @@ EGenNext ==
                         closed |-> Ids(elast'.closed)])
      \/ \E c \in econns, side \in {"chc", "bhc"} :
           kind = "half" /\ HalfClose(c, side) /\ EStep([op |-> "HalfClose", id |-> c.id, side |-> side, a |-> oaddr[c.o], win |-> {}])
+     \/ \E a \in Addrs : kind = "refuse" /\ SwitchRefuse(a) /\ EStep([op |-> "Refuse", a |-> a, refusing |-> ref'[a], win |-> {}])
+     \/ \E c \in econns : kind = "close" /\ CloseConn(c) /\ EStep([op |-> "CloseConn", id |-> c.id, a |-> oaddr[c.o], win |-> {}])
      \/ kind = "conn" /\ Conn /\ EStep([op |-> "Conn", id |-> elast'.id, win |-> {},
                        chosen |-> IF elast'.chosen = NoObj THEN 0 ELSE oaddr[elast'.chosen],
-                       chosenObj |-> elast'.chosen, est |-> elast'.est,
+                       chosenObj |-> elast'.chosen, est |-> elast'.est, refused |-> elast'.refused,
+                       r1 |-> elast'.r1, r2 |-> elast'.r2,
+                       h1a |-> IF elast'.h1 = NoObj THEN 0 ELSE oaddr[elast'.h1],
+                       h2a |-> IF elast'.h2 = NoObj THEN 0 ELSE oaddr[elast'.h2],
+                       rc1 |-> elast'.rc1, rc2 |-> elast'.rc2,
                        allowed |-> {oaddr[o] : o \in elast'.allowed}])
 
 EFinish ==
@@ -96,6 +107,15 @@ StratumHit ==
   /\ \/ elast'.must # {}
      \/ Leaving # {} /\ \E i \in 1..Len(hist) : hist[i].op = "Add" /\ hist[i].closedInfo # {}
 StrataEmit == StratumHit => PrintT("@@STRATUM " \o ToJson(hist'))
+
+\* a connection under least-connection whose two samples are a host that refused at least two
+\* dials earlier (and accepts again) and another host with strictly more real relays
+FailedDials(a) == Cardinality({i \in 1..Len(hist) : hist[i].op = "Conn" /\ hist[i].refused /\ hist[i].chosen = a})
+TrapLeak ==
+  ~(/\ elast.kind = "conn" /\ elast.est /\ elast.h1 # elast.h2
+    /\ \E x \in {elast.h1, elast.h2} :
+         /\ FailedDials(oaddr[x]) >= 2 /\ elast.chosen = x
+         /\ (IF x = elast.h1 THEN elast.rc1 < elast.rc2 ELSE elast.rc2 < elast.rc1)) \/ Trapped
 
 EGenSpec == EGenInit /\ [][ChooseKind \/ EGenNext \/ EFinish]_egvars
 =============================================================================
